@@ -177,7 +177,24 @@ def check_dot(scfg, src, arrow_styles=("→", "=>")):
         elif extra and not miss:
             kind = "edge-extra" + ("-dashed" if extra[0][2] else "-solid")
         errs.append((kind, tuple(miss), tuple(extra)))
-    # labels
+    # labels: format-agnostic - a label line must carry both members of every pair
+    import re
+
+    def lines_of(lab):
+        return [x for x in re.split(r"\\l|\\n|\n", lab) if x.strip()]
+
+    def has_pair(lab, a, b):
+        ta = re.compile(r"(?<![\w])" + re.escape(str(a)) + r"(?![\w])")
+        tb = re.compile(r"(?<![\w])" + re.escape(str(b)) + r"(?![\w])")
+        for ln in lines_of(lab):
+            ma = ta.search(ln)
+            if ma is None:
+                continue
+            rest = ln[:ma.start()] + " " + ln[ma.end():]
+            if tb.search(rest):
+                return True
+        return False
+
     for n, attrs, cl in g.nodes:
         b = flat.get(n)
         if b is None:
@@ -187,13 +204,13 @@ def check_dot(scfg, src, arrow_styles=("→", "=>")):
             errs.append(("label-name", type(b).__name__, n))
         if isinstance(b, SyntheticAssignment):
             for k, v in b.variable_assignment.items():
-                if f"{k} = {v}" not in lab:
+                if not has_pair(lab, k, v):
                     errs.append(("label-assignment", type(b).__name__, n, k))
         if isinstance(b, SyntheticBranch):
             if str(b.variable) not in lab:
                 errs.append(("label-variable", type(b).__name__, n))
             for k, v in b.branch_value_table.items():
-                if not any(f"{k}{sep}{v}" in lab.replace(" ", "") for sep in arrow_styles):
+                if not has_pair(lab, k, v):
                     errs.append(("label-table", type(b).__name__, n, k, v))
         if isinstance(b, PythonASTBlock):
             for st in b.tree:
